@@ -227,62 +227,21 @@ func parseBurst(s string) ([]int, bool) {
 	return out, true
 }
 
-// blockWriter orders bursts until the write queue of some session stays full (its writer is blocked in
-// a socket write). Returns (blocked, time of the first fully-dropped burst, bytes ordered per media).
+// blockWriter has the child write bursts (command F) until the write queue of some session stays full,
+// i.e. its writer is blocked in a socket write. Returns (blocked, when, bytes ordered per media).
 func blockWriter(ch *child, sc slowScen) (bool, time.Time, int, error) {
 	const count = 64
-	entries := count * sc.Medias // queue entries per burst for the hostile session
-	var prev []int
-	maxDelta := func(cur []int) int {
-		m := 0
-		for i, x := range cur {
-			p := 0
-			if i < len(prev) {
-				p = prev[i]
-			}
-			if x-p > m {
-				m = x - p
-			}
-		}
-		prev = cur
-		return m
+	s, err := ch.ask(fmt.Sprintf("F %d %d %d", count, sc.PktSize, 700), 60*time.Second) // at most ~60 MB per media
+	t0 := time.Now()
+	if err != nil {
+		return false, t0, 0, err
 	}
-	ordered := 0
-	runs := 0
-	var t0 time.Time
-	for i := 0; i < 700; i++ { // at most ~60 MB per media
-		s, err := ch.ask(fmt.Sprintf("B %d %d", count, sc.PktSize), 20*time.Second)
-		if err != nil {
-			return false, t0, ordered, err
-		}
-		cur, ok := parseBurst(s)
-		if !ok {
-			return false, t0, ordered, fmt.Errorf("burst answered %q", s)
-		}
-		ordered += count * sc.PktSize
-		if maxDelta(cur) >= entries*3/4 {
-			if runs == 0 {
-				t0 = time.Now()
-			}
-			runs++
-		} else {
-			runs = 0
-		}
-		if runs >= 3 {
-			// confirm: the queue does not drain
-			time.Sleep(15 * time.Millisecond)
-			s, err = ch.ask(fmt.Sprintf("B %d %d", count, sc.PktSize), 20*time.Second)
-			if err != nil {
-				return false, t0, ordered, err
-			}
-			if cur, ok = parseBurst(s); ok && maxDelta(cur) >= entries*3/4 {
-				return true, t0, ordered, nil
-			}
-			runs = 0
-		}
-		time.Sleep(time.Millisecond)
+	f := strings.Fields(s)
+	if len(f) != 3 || f[0] != "OK" {
+		return false, t0, 0, fmt.Errorf("fill answered %q", s)
 	}
-	return false, t0, ordered, nil
+	n, _ := strconv.Atoi(f[2])
+	return f[1] == "1", t0, n * count * sc.PktSize, nil
 }
 
 func splitDiff(d string) (ledger, missing, dup []string) {
@@ -478,6 +437,12 @@ func runSlow(sc slowScen, out *workerOut, mu *sync.Mutex) {
 	if data != nil {
 		nc.SetWriteDeadline(time.Now().Add(5 * time.Second))
 		nc.Write(data) //nolint:errcheck
+	}
+	// keep the pressure on while the request is handled
+	if s, err := ch.ask(fmt.Sprintf("B 32 %d", sc.PktSize), 20*time.Second); err == nil {
+		if _, ok := parseBurst(s); !ok {
+			add("child-control-failed", "burst answered %q", s)
+		}
 	}
 
 	// ---- answered or closed within the bound.
